@@ -22,6 +22,7 @@
 
 #include "CouponHashSet.hpp"
 
+#include <algorithm>
 #include <cstring>
 #include <exception>
 #include <stdexcept>
@@ -56,6 +57,24 @@ std::function<void(HllSketchImpl<A>*)> CouponHashSet<A>::get_deleter() const {
 }
 
 template<typename A>
+void CouponHashSet<A>::checkSetCount(uint32_t couponCount, uint8_t lgConfigK) {
+  // a set is promoted to HLL as soon as it holds more than 3/4 of 2^(lgConfigK - 3) coupons
+  if (hll_constants::RESIZE_DENOM * static_cast<uint64_t>(couponCount) > hll_constants::RESIZE_NUMER * (1ULL << (lgConfigK - 3))) {
+    throw std::invalid_argument("Possible corruption: too many coupons for a set: " + std::to_string(couponCount));
+  }
+}
+
+template<typename A>
+void CouponHashSet<A>::checkCountMatchesArray() const {
+  // the serialized size is computed from the count: it must agree with the array that was read
+  const auto numCoupons = std::count_if(this->coupons_.begin(), this->coupons_.end(),
+      [](uint32_t coupon) { return coupon != hll_constants::EMPTY; });
+  if (static_cast<uint32_t>(numCoupons) != this->couponCount_) {
+    throw std::invalid_argument("Possible corruption: coupon count does not match the coupon array");
+  }
+}
+
+template<typename A>
 CouponHashSet<A>* CouponHashSet<A>::newSet(const void* bytes, size_t len, const A& allocator) {
   if (len < hll_constants::HASH_SET_INT_ARR_START) { // hard-coded
     throw std::out_of_range("Input data length insufficient to hold CouponHashSet");
@@ -84,13 +103,18 @@ CouponHashSet<A>* CouponHashSet<A>::newSet(const void* bytes, size_t len, const 
     throw std::invalid_argument("Attempt to deserialize invalid CouponHashSet with lgConfigK <= 7. Found: "
                                 + std::to_string(lgK));
   }   
+  HllUtil<A>::checkLgK(lgK);
   uint8_t lgArrInts = data[hll_constants::LG_ARR_BYTE];
   const bool compactFlag = ((data[hll_constants::FLAGS_BYTE] & hll_constants::COMPACT_FLAG_MASK) ? true : false);
 
   uint32_t couponCount;
   std::memcpy(&couponCount, data + hll_constants::HASH_SET_COUNT_INT, sizeof(couponCount));
+  checkSetCount(couponCount, lgK);
   if (lgArrInts < hll_constants::LG_INIT_SET_SIZE) {
     lgArrInts = HllUtil<>::computeLgArrInts(SET, couponCount, lgK);
+  }
+  if (lgArrInts > lgK) {
+    throw std::invalid_argument("Possible corruption: lg size of the coupon array exceeds lgConfigK: " + std::to_string(lgArrInts));
   }
   // Don't set couponCount in sketch here;
   // we'll set later if updatable, and increment with updates if compact
@@ -117,6 +141,12 @@ CouponHashSet<A>* CouponHashSet<A>::newSet(const void* bytes, size_t len, const 
     std::memcpy(sketch->coupons_.data(),
                 data + hll_constants::HASH_SET_INT_ARR_START,
                 couponsInArray * sizeof(uint32_t));
+    try {
+      sketch->checkCountMatchesArray();
+    } catch (...) {
+      sketch->get_deleter()(sketch);
+      throw;
+    }
   }
 
   return sketch;
@@ -149,12 +179,18 @@ CouponHashSet<A>* CouponHashSet<A>::newSet(std::istream& is, const A& allocator)
     throw std::invalid_argument("Attempt to deserialize invalid CouponHashSet with lgConfigK <= 7. Found: "
                                 + std::to_string(lgK));
   }
+  HllUtil<A>::checkLgK(lgK);
   uint8_t lgArrInts = listHeader[hll_constants::LG_ARR_BYTE];
   const bool compactFlag = ((listHeader[hll_constants::FLAGS_BYTE] & hll_constants::COMPACT_FLAG_MASK) ? true : false);
 
   const auto couponCount = read<uint32_t>(is);
+  if (!is.good()) throw std::runtime_error("error reading from std::istream");
+  checkSetCount(couponCount, lgK);
   if (lgArrInts < hll_constants::LG_INIT_SET_SIZE) {
     lgArrInts = HllUtil<>::computeLgArrInts(SET, couponCount, lgK);
+  }
+  if (lgArrInts > lgK) {
+    throw std::invalid_argument("Possible corruption: lg size of the coupon array exceeds lgConfigK: " + std::to_string(lgArrInts));
   }
 
   ChsAlloc chsa(allocator);
@@ -167,6 +203,7 @@ CouponHashSet<A>* CouponHashSet<A>::newSet(std::istream& is, const A& allocator)
   if (compactFlag) {
     for (uint32_t i = 0; i < couponCount; ++i) {
       const auto coupon = read<uint32_t>(is);
+      if (!is.good()) throw std::runtime_error("error reading from std::istream");
       sketch->couponUpdate(coupon);
     }
   } else {
@@ -178,6 +215,8 @@ CouponHashSet<A>* CouponHashSet<A>::newSet(std::istream& is, const A& allocator)
 
   if (!is.good())
     throw std::runtime_error("error reading from std::istream"); 
+
+  if (!compactFlag) sketch->checkCountMatchesArray();
 
   return ptr.release();
 }
